@@ -20,6 +20,7 @@ CONSTANTS
     Groups,     \* event groups enabled (strings)
     MaxEvents,  \* bound on the number of environment events
     Emit,       \* TRUE: print one schedule per transition
+    EmitFullOnly, \* TRUE: print only schedules of full length (random walks in -simulate mode)
     MsgIds,     \* message IDs used by both sides
     AuthModes,  \* subset of {TRUE, FALSE}
     CredModes,  \* subset of {TRUE, FALSE}: gateway configured with credentials
@@ -207,7 +208,8 @@ Next ==
           /\ hist' = Append(hist, e)
           /\ bad' = SelfChecks(s, e, s2)
           /\ (bad' # {} => PrintT("BAD:" \o ToJson([bad |-> bad', events |-> [i \in DOMAIN hist' |-> EvSum(hist'[i])]])))
-          /\ (Emit => PrintT("SCHED:" \o ToJson([cfg |-> s.cfg, prefix |-> Prefix, events |-> hist'])))
+          /\ ((Emit /\ (~EmitFullOnly \/ Len(hist') = MaxEvents \/ ~s2.alive)) =>
+                 PrintT("SCHED:" \o ToJson([cfg |-> s.cfg, prefix |-> Prefix, events |-> hist'])))
 
 Spec == Init /\ [][Next]_vars
 
